@@ -157,8 +157,11 @@ def riscv_b(obj, rs1, rs2, imm1, imm2, imm3, imm4):
 def riscv_csr(obj, imm, rs1, rd):
     r1 = env.x[rs1]
     dst = env.x[rd]
-    csr = env.csr[imm]
-    obj.operands = [dst, r1]
+    # every 12-bit CSR address is a valid encoding, only a few have a name in env:
+    csr = env.csr.get(imm, None)
+    if csr is None:
+        csr = env.reg("csr_0x%03x" % imm, dst.size)
+    obj.operands = [dst, csr, r1]
     obj.type = type_cpu_state
 
 
